@@ -268,7 +268,10 @@ extract_args(vector_string &args, const string &expr, size_t &p) const {
     int paren_level = 1;
     size_t q = p;
     while (p < expr.size()) {
-      if (expr[p] == ',' && paren_level == 1) {
+      if (expr[p] == ',' && paren_level == 1 &&
+          (_variadic_param < 0 || (int)args.size() < _variadic_param)) {
+        // (The commas between the variable arguments are part of the one
+        // argument that __VA_ARGS__ stands for.)
         // Back up to strip any trailing whitespace.
         size_t r = p;
         while (r > q && isspace(expr[r - 1])) {
@@ -671,11 +674,7 @@ has_variadic_args(const vector_string &args) const {
     return false;
   }
   size_t first = (size_t)_variadic_param;
-  if (args.size() > first + 1) {
-    // More than one variable argument: there is at least a comma.
-    return true;
-  }
-  return args.size() == first + 1 && !args[first].empty();
+  return args.size() > first && !args[first].empty();
 }
 
 /**
@@ -692,13 +691,10 @@ r_expand(const Expansion &expansion, const vector_string &args,
 
       string subst;
       if (i < (int)args.size()) {
+        // (The variable arguments arrive as a single argument, commas and
+        // all, spelled the way they were written.)
         subst = args[i];
 
-        if (i == _variadic_param) {
-          for (++i; i < (int)args.size(); ++i) {
-            subst += ", " + args[i];
-          }
-        }
         if (node._stringify) {
           subst = stringify(subst);
         }
